@@ -52,6 +52,7 @@ type Step struct {
 	Text  string `json:"text,omitempty"`  // the failedMessage the hook gives (valid UTF-8, any bytes otherwise)
 	Class string `json:"class,omitempty"` // generator's class of Text (tag only)
 	Spell string `json:"spell,omitempty"` // how the response file spells Text as a JSON string: std | raw | uall | mixed
+	Objs  []Obj  `json:"objs,omitempty"`  // kind "enc": the elements of convertedObjects, each with its encoding (enc.go)
 }
 
 // the message of a step
@@ -115,6 +116,9 @@ type Input struct {
 type Obj struct {
 	Id int `json:"id"`
 	V  Ver `json:"v"`
+	// how the element is encoded (enc.go): "" = an object whose apiVersion is the string V
+	Enc string `json:"enc,omitempty"`
+	K   int    `json:"k,omitempty"`
 }
 type Outcome struct {
 	Kind string `json:"kind"`          // exitfail | badresponse | noresponse | resp
@@ -285,6 +289,9 @@ exit $e
 type registrar struct{ hook, binding string }
 
 func objJSON(o Obj) string {
+	if o.Enc != "" {
+		return encJSON(o)
+	}
 	return fmt.Sprintf(`{"apiVersion":%q,"kind":"CronTab","metadata":{"name":"o%d"}}`, o.V.String(), o.Id)
 }
 func objsJSON(os []Obj) string {
@@ -297,18 +304,7 @@ func objsJSON(os []Obj) string {
 func parseObjs(raws [][]byte) []Obj {
 	var res []Obj
 	for _, raw := range raws {
-		var m struct {
-			APIVersion string `json:"apiVersion"`
-			Metadata   struct {
-				Name string `json:"name"`
-			} `json:"metadata"`
-		}
-		_ = json.Unmarshal(raw, &m)
-		id, err := strconv.Atoi(strings.TrimPrefix(m.Metadata.Name, "o"))
-		if err != nil {
-			id = 99999
-		}
-		res = append(res, Obj{id, parseVer(m.APIVersion)})
+		res = append(res, classify(raw))
 	}
 	return res
 }
@@ -316,7 +312,7 @@ func parseObjs(raws [][]byte) []Obj {
 func mkObjs(base, n int, v Ver) []Obj {
 	var r []Obj
 	for i := 0; i < n; i++ {
-		r = append(r, Obj{base + i, v})
+		r = append(r, Obj{Id: base + i, V: v})
 	}
 	return r
 }
@@ -413,6 +409,8 @@ func concretise(st Step, k int, r Rule, desired Ver, n int) (out Outcome, resp s
 		return Outcome{Kind: "resp", Objs: objs}, respOf("", objs), 0
 	case "noobjs":
 		return Outcome{Kind: "resp"}, `{}`, 0
+	case "enc": // the elements as scripted, each in its own encoding
+		return Outcome{Kind: "resp", Objs: st.Objs}, respOf("", st.Objs), 0
 	case "failmsg":
 		return Outcome{Kind: "resp", Msg: st.message()}, `{"failedMessage":` + msgLit + `}`, 0
 	case "failmsgobjs":
@@ -940,7 +938,7 @@ func runSession(in Input) (o Obs) {
 
 func Run(in Input) Obs {
 	switch in.Kind {
-	case "handler":
+	case "handler", "enc":
 		return runHandler(in)
 	case "session":
 		return runSession(in)
@@ -962,14 +960,16 @@ func rulesText(rs []Rule) string {
 func objsText(os []Obj) string {
 	parts := make([]string, len(os))
 	for i, o := range os {
-		parts[i] = fmt.Sprintf("o%d@%s", o.Id, o.V)
+		parts[i] = objText(o)
 	}
 	return "[" + strings.Join(parts, " ") + "]"
 }
 func planText(p []Step) string {
 	var parts []string
 	for _, st := range p {
-		if m := st.message(); m != "" {
+		if st.Kind == "enc" {
+			parts = append(parts, "enc"+objsText(st.Objs))
+		} else if m := st.message(); m != "" {
 			parts = append(parts, fmt.Sprintf("%s(%q as %s)", st.Kind, m, orStd(st.Spell)))
 		} else {
 			parts = append(parts, st.Kind)
@@ -1076,7 +1076,7 @@ func readable(in Input, obs *Obs) []string {
 		}
 		return out
 	}
-	if in.Kind == "handler" {
+	if in.Kind == "handler" || in.Kind == "enc" {
 		out = append(out, fmt.Sprintf("request: %d object(s) at %s, desired %s; plan %s", in.NReq, in.Src, in.Desired, planText(in.Plan)))
 		if obs.ChainFound {
 			out = append(out, "chain "+rulesText(obs.Chain))
@@ -1181,6 +1181,9 @@ func Render(in Input, obs *Obs, crash string) core.Case {
 	}
 	if in.Kind == "params" {
 		return renderParams(in, obs, c)
+	}
+	if in.Kind == "enc" {
+		return renderEnc(in, obs, c)
 	}
 	if in.Kind == "handler" {
 		chain := "[]"
@@ -1860,7 +1863,7 @@ func oks(n int) []Step {
 }
 
 // Corpus: witnesses of the repaired defects F4a-F4d and past failures; runs first.
-func Corpus() []Input { return append(corpusBase(), corpusParams()...) }
+func Corpus() []Input { return append(append(corpusBase(), corpusParams()...), corpusEnc()...) }
 
 func corpusBase() []Input {
 	lin := []Rule{rl(0, 3), rl(3, 5), rl(5, 8)} // v1 -> v2 -> v3 -> v4
@@ -2111,11 +2114,22 @@ func Gen(r *core.Rng, tier string) ([]core.In[Input], bool) {
 	for i := 0; i < nParams; i++ {
 		add(g.paramsCase(), "params")
 	}
+	// hook outputs as encoded (enc.go).  Generated last: the other streams keep their inputs.
+	g.encPositions(func(in Input) { add(in, "enc-positions") }, tier)
+	nEnc := 60
+	if tier == "thorough" {
+		nEnc = 3000
+	} else if tier == "search" {
+		nEnc = 400
+	}
+	for i := 0; i < nEnc; i++ {
+		add(g.encCase(), "enc")
+	}
 	return ins, false
 }
 
 var Driver = core.Driver[Input, Obs]{
-	Spec: core.Spec{Property: "C15", Imports: []string{"C15_Model", "C15_Spec", "C15_Corr"}, Corr: "C15_Corr", Triggers: nil, ShrinkKey: "rules",
-		Rule: "search cases: a generated rule graph (chains, forks after k steps, diamonds, cycles, random; near-miss names v1/v10/v1beta1/v1alpha1/v2/v2beta1/v20; spelt short, with group, or mixed) and all (from,to) pairs queried through the real ChainStorage.FindConversionChain on a fresh storage per query and on a shared one; every returned chain is judged by Coq (valid_chain), every nil by reachable, found/not-found is compared with the model. handler cases: real hooks (bash stubs) + real hook.Manager + real conversionEventHandler + real conversion.WebhookHandler router, one ConversionReview, scripted outcome per hook run (ok, exit 1, bad JSON, empty, failedMessage with/without objects, failedMessage \"\"/null/not a string, failedMessage of a hook that exits 1, fewer/more objects, wrong/mixed versions, early jump, no objects); hook runs (registrar, rule, objects received) and the answer compared with the model: result.status, the converted objects, and result.message BYTE FOR BYTE (no text is classified by the harness; the model C15_Model.serve produces the text of every message, the Spec demands that a failing hook's failedMessage is the answer's message). failedMessage texts are free text by class (tags msg:<class>, msghas:<feature>, msgspell:<JSON spelling in the response file: std|raw|uall|mixed>): plain, percent (%d %s %v %w %% %[1]d, trailing %, %2F ...), quote (quotes, backslashes, text that reads like an escape), newline (newlines, tabs, control bytes incl. NUL), unicode (Cyrillic, CJK, astral, U+2028, BOM, U+FFFD), space (leading/trailing blanks, a lone blank), html (< > &), lookalike (texts that read like the operator's own messages, null, {}), long (150-300 bytes). Streams: corpus (witnesses of F4a-F4d, message witnesses, sessions with settings), random, two-groups (informational, outside the domain), handler (half of the faults concern the failedMessage), messages (every message class in every JSON spelling on a 1-3 step chain), exhaustive (thorough: every rule set of <=5 rules over the 4 versions v1,v10,v1beta1,v2 incl. self-rules, all 16 pairs, fresh and shared, plus one re-spelling). session cases (kind:session): the same real stack, but hooks with `settings` (executionMinInterval 5-60 ms, a few of 1-2 s; executionBurst default/1/2/3; also interval 0 / negative = no limit, and hooks without settings beside limited ones), rules on a line of 1-3 steps (+ way back / side branch) registered by 1-3 hooks so that one hook serves several steps of a chain, and 1-3 ConversionReviews posted back to back to ONE operator (shared limiters and chain cache); per request the chain, the hook runs and the answer are compared with C15_Model.serve_session (every step through the hook-run task and RateLimitWait) and judged by P_search / P_handler: a rate-limited hook is delayed, never skipped. No clock reading enters the comparison (C15_session_state_irrelevant), so there is no timing tolerance; timing only decides what a case exercises: tag throttled-runs:<n> = hook runs that found their bucket empty (estimated from the stubs' timestamps), steps-by-a-hook-that-already-served-the-chain:<n>, interval:<class>, burst:<b>. A case lasts as long as its waits (generator budget 320 ms, slow cases 1-2 s); sessions are spread evenly over the workers. Informational stream session-never-runnable: a negative burst with a positive interval allows no execution of the hook at all (outside C15_Spec.settings_in_domain: compared with the model, not judged by P_handler). params cases (kind:params): the same real stack, one ConversionReview, but the conversion bindings carry the further documented binding parameters - `group` (a group that names nothing, or one that has `kubernetes` / `schedule` bindings of the hook as members) and `includeSnapshotsFrom` - and the hooks have `kubernetes` / `schedule` bindings beside them (which never fire: no cluster, a crontab for 30 February); observed per hook execution: WHICH hook ran and WHAT IT READ in $BINDING_CONTEXT_PATH field by field (binding, type, keys of snapshots, groupName, fromVersion, toVersion, review.request.objects; the harness expects nothing about the type), and the answer; compared with C15_BindModel.serve_params (configuration loading with the group merge, links, HandleEvent, UpdateSnapshots, MapV1 statement by statement; snapshot keys as a set) and judged by C15_BindSpec.P_params: every executed hook read the conversion request of its step (type Conversion, the step's rule, the previous output) and is a hook that declared the rule. Streams: params-positions = every non-empty choice of bindings with parameters along a line of 1-4 steps served by one hook per step or by one hook for all steps (33 choices; variants group / group with members / includeSnapshotsFrom / both, quick: one variant per choice, thorough: all four), a fault in a quarter of them; params = random rule graphs and requests as in the handler stream with random parameters per binding (group 55%, includeSnapshotsFrom 35%) and 0-3 kubernetes / 0-1 schedule bindings per hook; corpus: a two-hook chain with mixed spellings whose second binding has a group, a grouped binding with members and an include, one hook with two grouped bindings over three steps, a grouped step that fails with its own message. Tags step-with-group:<only|first|middle|last>, step-with-includeSnapshotsFrom:<pos>, step-without-params:<pos>, ctx-type:<type read>, ctx-snapshots:<n keys|absent>, executed-steps-with-params:<n>. non-trivial = search: >=2 rules and a returned chain of >=2 steps; handler: chain found and at least one hook ran; session: every chain found and at least two hook runs; params: chain found and at least one executed step served by a binding with group or includeSnapshotsFrom. distinct = distinct input text"},
+	Spec: core.Spec{Property: "C15", Imports: []string{"C15_Model", "C15_Spec", "C15_EncModel", "C15_Corr"}, Corr: "C15_Corr", Triggers: nil, ShrinkKey: "rules",
+		Rule: "search cases: a generated rule graph (chains, forks after k steps, diamonds, cycles, random; near-miss names v1/v10/v1beta1/v1alpha1/v2/v2beta1/v20; spelt short, with group, or mixed) and all (from,to) pairs queried through the real ChainStorage.FindConversionChain on a fresh storage per query and on a shared one; every returned chain is judged by Coq (valid_chain), every nil by reachable, found/not-found is compared with the model. handler cases: real hooks (bash stubs) + real hook.Manager + real conversionEventHandler + real conversion.WebhookHandler router, one ConversionReview, scripted outcome per hook run (ok, exit 1, bad JSON, empty, failedMessage with/without objects, failedMessage \"\"/null/not a string, failedMessage of a hook that exits 1, fewer/more objects, wrong/mixed versions, early jump, no objects); hook runs (registrar, rule, objects received) and the answer compared with the model: result.status, the converted objects, and result.message BYTE FOR BYTE (no text is classified by the harness; the model C15_Model.serve produces the text of every message, the Spec demands that a failing hook's failedMessage is the answer's message). failedMessage texts are free text by class (tags msg:<class>, msghas:<feature>, msgspell:<JSON spelling in the response file: std|raw|uall|mixed>): plain, percent (%d %s %v %w %% %[1]d, trailing %, %2F ...), quote (quotes, backslashes, text that reads like an escape), newline (newlines, tabs, control bytes incl. NUL), unicode (Cyrillic, CJK, astral, U+2028, BOM, U+FFFD), space (leading/trailing blanks, a lone blank), html (< > &), lookalike (texts that read like the operator's own messages, null, {}), long (150-300 bytes). Streams: corpus (witnesses of F4a-F4d, message witnesses, sessions with settings), random, two-groups (informational, outside the domain), handler (half of the faults concern the failedMessage), messages (every message class in every JSON spelling on a 1-3 step chain), exhaustive (thorough: every rule set of <=5 rules over the 4 versions v1,v10,v1beta1,v2 incl. self-rules, all 16 pairs, fresh and shared, plus one re-spelling). session cases (kind:session): the same real stack, but hooks with `settings` (executionMinInterval 5-60 ms, a few of 1-2 s; executionBurst default/1/2/3; also interval 0 / negative = no limit, and hooks without settings beside limited ones), rules on a line of 1-3 steps (+ way back / side branch) registered by 1-3 hooks so that one hook serves several steps of a chain, and 1-3 ConversionReviews posted back to back to ONE operator (shared limiters and chain cache); per request the chain, the hook runs and the answer are compared with C15_Model.serve_session (every step through the hook-run task and RateLimitWait) and judged by P_search / P_handler: a rate-limited hook is delayed, never skipped. No clock reading enters the comparison (C15_session_state_irrelevant), so there is no timing tolerance; timing only decides what a case exercises: tag throttled-runs:<n> = hook runs that found their bucket empty (estimated from the stubs' timestamps), steps-by-a-hook-that-already-served-the-chain:<n>, interval:<class>, burst:<b>. A case lasts as long as its waits (generator budget 320 ms, slow cases 1-2 s); sessions are spread evenly over the workers. Informational stream session-never-runnable: a negative burst with a positive interval allows no execution of the hook at all (outside C15_Spec.settings_in_domain: compared with the model, not judged by P_handler). params cases (kind:params): the same real stack, one ConversionReview, but the conversion bindings carry the further documented binding parameters - `group` (a group that names nothing, or one that has `kubernetes` / `schedule` bindings of the hook as members) and `includeSnapshotsFrom` - and the hooks have `kubernetes` / `schedule` bindings beside them (which never fire: no cluster, a crontab for 30 February); observed per hook execution: WHICH hook ran and WHAT IT READ in $BINDING_CONTEXT_PATH field by field (binding, type, keys of snapshots, groupName, fromVersion, toVersion, review.request.objects; the harness expects nothing about the type), and the answer; compared with C15_BindModel.serve_params (configuration loading with the group merge, links, HandleEvent, UpdateSnapshots, MapV1 statement by statement; snapshot keys as a set) and judged by C15_BindSpec.P_params: every executed hook read the conversion request of its step (type Conversion, the step's rule, the previous output) and is a hook that declared the rule. Streams: params-positions = every non-empty choice of bindings with parameters along a line of 1-4 steps served by one hook per step or by one hook for all steps (33 choices; variants group / group with members / includeSnapshotsFrom / both, quick: one variant per choice, thorough: all four), a fault in a quarter of them; params = random rule graphs and requests as in the handler stream with random parameters per binding (group 55%, includeSnapshotsFrom 35%) and 0-3 kubernetes / 0-1 schedule bindings per hook; corpus: a two-hook chain with mixed spellings whose second binding has a group, a grouped binding with members and an include, one hook with two grouped bindings over three steps, a grouped step that fails with its own message. Tags step-with-group:<only|first|middle|last>, step-with-includeSnapshotsFrom:<pos>, step-without-params:<pos>, ctx-type:<type read>, ctx-snapshots:<n keys|absent>, executed-steps-with-params:<n>. enc cases (kind:enc): the handler stack again, one ConversionReview, but one or two steps of the chain answer a list of elements each in its own ENCODING (the stubs write raw JSON): an object whose apiVersion is the desired / the source / the step's own / another version, the empty string, a malformed text (trailing or leading '/', leading or trailing blank, upper case), missing, null, not a string (number, bool, object, array), the element null, an element that is no object (number, string, array, bool) - in every position (first, after an element at the desired version, middle, last), mixed with elements at the desired or at an intermediate version, with the right or a wrong count; what the next hook received and the answer's convertedObjects are classified by the harness from the raw JSON the same way; compared with C15_EncModel.serve_e (ExtractAPIVersions: one fresh decoding per element) and judged by C15_EncSpec.P_enc: an element without apiVersion is not at the desired version - such a list neither ends the chain early nor is answered Success. Streams: enc-positions = every encoding x position x (chain length, step) systematically (quick: 1-2 step chains, the first step, lists of 2-3; thorough: 1-3 steps, every step, lists of 1-3, the rest at the desired or at the step's own version); enc = random graphs and requests as in the handler stream with 1-2 encoded steps. Tags enc:<encoding>, encpos:<first|after-desired|after-other|last...>, enc-rest:<desired|other|mixed>. non-trivial = enc: chain found and an executed step answered an element that is not a well-formed object; search: >=2 rules and a returned chain of >=2 steps; handler: chain found and at least one hook ran; session: every chain found and at least two hook runs; params: chain found and at least one executed step served by a binding with group or includeSnapshotsFrom. distinct = distinct input text"},
 	Gen: Gen, Run: Run, Render: Render, PerShard: 1000, Workers: 8, CaseTimout: 30 * time.Second,
 }
